@@ -145,6 +145,25 @@ pub fn gen(seed: u64, n: usize, tier: &str) -> Vec<Case> {
         nested(32, b'*'), nested(33, b'*'), nested(34, b'*'), nested(40, b'%'), nested(33, b'~'), nested(2000, b'*'),
         b"*2\r\n$3\r\nGET\r\n$1\r\nk\r\n\r\n\r\n*1\r\n$4\r\nPING\r\n".to_vec(),
     ];
+    // declared lengths at the edges of i64 / u64 / usize for every length-prefixed type: alone, followed
+    // by a few bytes, and as an argument inside a command array - an answer (error or need-more-data),
+    // never an arithmetic overflow on `header + length + 2`
+    let mut fixed = fixed;
+    let edges: Vec<String> = {
+        let mut v: Vec<String> = vec!["9223372036854775806".into(), "9223372036854775807".into(), "9223372036854775808".into(),
+            "18446744073709551616".into(), "18446744073709551617".into(), "99999999999999999999".into(), "340282366920938463463374607431768211456".into(),
+            "4294967295".into(), "4294967296".into(), "-9223372036854775808".into(), "-9223372036854775809".into(), "-18446744073709551615".into()];
+        for k in 0..34u64 { v.push(format!("{}", u64::MAX - k)); }
+        v
+    };
+    for l in &edges {
+        for t in [b'$', b'*', b'%', b'~'] {
+            let mut h = vec![t]; h.extend_from_slice(l.as_bytes()); h.extend_from_slice(b"\r\n");
+            fixed.push(h.clone());
+            let mut h2 = h.clone(); h2.extend_from_slice(b"ab\r\n+x\r\n"); fixed.push(h2);
+            let mut h3 = b"*2\r\n$4\r\nECHO\r\n".to_vec(); h3.extend_from_slice(&h); fixed.push(h3);
+        }
+    }
     for d in &fixed {
         let mut cks = vec![]; chunkings(&mut r, d, &mut cks, true);
         let ops = cks.iter().map(|c| parse_op(c)).collect();
